@@ -222,7 +222,14 @@ macro_rules! register_window {
             loop {
                 match receiver.recv() {
                     Ok(content) => {
+                        #[cfg(kolibrie_verif)]
+                        crate::verif_hooks::yield_point(crate::verif_hooks::SITE_WORKER_BEFORE_PROCESS);
                         $processor(content);
+                        #[cfg(kolibrie_verif)]
+                        {
+                            crate::verif_hooks::firing_done();
+                            crate::verif_hooks::yield_point(crate::verif_hooks::SITE_WORKER_AFTER_PROCESS);
+                        }
                     }
                     Err(_) => {
                         debug!("Shutting down window {}!", $window_iri);
@@ -644,6 +651,11 @@ where
                 };
 
                 if let Some(window_result) = maybe_result {
+                    #[cfg(kolibrie_verif)]
+                    {
+                        crate::verif_hooks::coordinator_step();
+                        crate::verif_hooks::yield_point(crate::verif_hooks::SITE_COORDINATOR_AFTER_RECV);
+                    }
                     debug!(
                         "Coordinator received {} results from window: {}",
                         window_result.results.len(),
